@@ -150,6 +150,7 @@ type PO struct {
 	OnlyInline []string // if set: only these are inlined
 	Pure       []string // non-inlined module callees treated as pure
 	Callbacks  bool
+	WalkRounds int // symbolic invocations per collections Walk callback (0 = 1)
 	Params     []string
 	// OpaqueSorters: module functions that sort (call sort.* / slices.Sort* directly) stay
 	// opaque and pure, whatever their name, package or signature: rules reason about
@@ -158,7 +159,7 @@ type PO struct {
 }
 
 func (po PO) key() string {
-	return fmt.Sprintf("%d|%d|%v|%v|%v|%v|%v|%v", po.Depth, po.Visits, po.NoInline, po.OnlyInline, po.Pure, po.Callbacks, po.Params, po.OpaqueSorters)
+	return fmt.Sprintf("%d|%d|%v|%v|%v|%v|%v|%v|%d", po.Depth, po.Visits, po.NoInline, po.OnlyInline, po.Pure, po.Callbacks, po.Params, po.OpaqueSorters, po.WalkRounds)
 }
 
 // the derivation functions C17 proves pure: never inlined, always pure.
@@ -193,7 +194,7 @@ func (c *Ctx) Paths(fn *ssa.Function, po PO) []*Path {
 	}
 	c.FuncsAnalysed[shortName(fn.String())] = true
 	ps := &pathSet{}
-	opts := Opts{MaxDepth: po.Depth, MaxVisits: po.Visits, Callbacks: po.Callbacks, ParamNames: po.Params,
+	opts := Opts{MaxDepth: po.Depth, MaxVisits: po.Visits, Callbacks: po.Callbacks, WalkRounds: po.WalkRounds, ParamNames: po.Params,
 		Inline: func(f *ssa.Function) bool {
 			n := funcName(f)
 			if containsAny(n, derivationFns) {
